@@ -1,11 +1,17 @@
 (* Cluster Gql: executable models of the GraphQL layer.
      Model38.v  crates/fuel-core/src/schema.rs query_pagination            (C38)
+     Model37.v  crates/fuel-core/src/coins_query.rs + asset_query.rs       (C37)
+     Model36.v  graphql_api/worker_service.rs + indexation/*.rs            (C36)
    This file only dispatches the exchange requests to the per-property models. *)
 From FC Require Export Common.T.
 From FC Require Export Gql.Model38.
+From FC Require Export Gql.Model37.
+From FC Require Export Gql.Model36.
 
 Definition main_T (req : T) : T :=
   match req with
   | L [I 38%Z; input; observed] => main38 input observed
+  | L [I 37%Z; input; observed] => main37 input observed
+  | L [I 36%Z; input; observed] => main36 input observed
   | _ => tErr 0
   end.
